@@ -311,3 +311,65 @@ v3_push_fields!(v3_fields_md5, 0x81u8, 0u8);
 v3_push_fields!(v3_fields_sha1_des, 0x82u8, 0x81u8);
 //@ C09,C03,C13,C14 thorough timeout=5400 optional | v3 push_pdu decisions, MD5 auth + AES-128
 v3_push_fields!(v3_fields_md5_aes, 0x81u8, 0x82u8);
+
+//@ C09,C14,C03 quick timeout=1500 | SnmpV3Message::push_ber (real serialiser, local buffer) with ALL EIGHT combinations of the auth/priv/reportable flags, empty USM strings, 2-octet encrypted msgData: the msgFlags octet on the wire == auth | priv<<1 | reportable<<2, msgID/version/model as given
+#[kani::proof]
+#[kani::unwind(10)]
+#[kani::stub(alloc::fmt::format, stub_format)]
+fn v3_msg_flags_byte() {
+    use crate::ber::BerEncoder;
+    let fa: bool = kani::any();
+    let fp: bool = kani::any();
+    let fr: bool = kani::any();
+    let data = [0xaau8, 0xbb];
+    let m = SnmpV3Message {
+        msg_id: 0x1234,
+        flag_auth: fa,
+        flag_priv: fp,
+        flag_report: fr,
+        usm: UsmParameters { engine_id: &[], engine_boots: 0, engine_time: 0, user_name: &[], auth_params: &[], privacy_params: &[] },
+        data: MsgData::Encrypted(&data),
+    };
+    let mut buf = Buffer::default();
+    m.push_ber(&mut buf).expect("fits");
+    // reference
+    let mut usm = W::new();
+    usm.octets(0x04, &[]);
+    usm.int(0);
+    usm.int(0);
+    usm.octets(0x04, &[]);
+    usm.octets(0x04, &[]);
+    usm.octets(0x04, &[]);
+    let mut usm_seq = W::new();
+    usm_seq.tlv(0x30, &usm);
+    let mut hd = W::new();
+    hd.int(0x1234);
+    hd.int(2048);
+    hd.octets(0x04, &[(fa as u8) | ((fp as u8) << 1) | ((fr as u8) << 2)]);
+    hd.int(3);
+    let mut body = W::new();
+    body.int(3);
+    body.tlv(0x30, &hd);
+    body.tlv(0x04, &usm_seq);
+    body.octets(0x04, &data);
+    let mut want = W::new();
+    want.tlv(0x30, &body);
+    let d = buf.data();
+    assert!(d.len() == want.n, "v3_message_length");
+    macro_rules! cmp8 {
+        ($($k:expr),*) => { $( {
+            let mut j = 0;
+            while j < 8 {
+                let i = $k * 8 + j;
+                if i < want.n {
+                    assert!(d[i] == want.b[i], "v3_message_octets_incl_flags");
+                }
+                j += 1;
+            }
+        } )* };
+    }
+    cmp8!(0, 1, 2, 3, 4, 5, 6, 7);
+    kani::cover!(fa && fr, "authenticated reportable message");
+    kani::cover!(!fa && !fp && !fr, "no flags");
+    core::mem::forget(buf);
+}
